@@ -262,6 +262,7 @@ class Ctx:
                 "units_failed": self.units_failed,
                 "floors": [{"what": w, "matched": k, "minimum": m} for w, k, m in self.floors],
                 "canaries": self.canaries,
+                "selftest": str(getattr(self, "selftest", None) or "not run in this tier (thorough runs it)"),
                 "known_findings_hit": sorted({k["id"] for _, k in known_hit}),
                 "notes": self.notes[:50],
                 "trusted_base": self.trusted,
